@@ -21,7 +21,7 @@ propagator treats as booleans; the contract holds on stores where those have dom
 
 Kinds added later (mul, div, modulo, allEqual, between, count, cardinality, element, table,
 if-then-else, allDiff): `PK.WFs` is the *static* well-formedness of every kind, `PK.StoreOk` the additional
-*store* precondition of `modulo` (non-negative dividend, positive divisor, no boundary sampling;
+*store* precondition of `modulo` (non-negative dividend, positive divisor;
 `div` needs none since the repair `fix: Div/Modulo fail when the divisor is fixed to zero`); `PK.contract_inv` is the general contract theorem under a
 store invariant implying both, `StoreInv`/`closed_storeInv`/`allContract_inv` package it for the
 engine theorems.  `PK.WFk`/`PK.contract_all` keep their signature: for `modulo` `WFk` asks the
@@ -90,7 +90,7 @@ def PK.WFk : PK → Prop
 
 theorem KModulo.modOk_nonzero {x y : IView} {st : Store} (h : KModulo.ModOk x y st) :
     PK.rangeHasZero (y.minRaw st) (y.maxRaw st) = false := by
-  have := h.2.1
+  have := h.2
   simp only [PK.rangeHasZero, Bool.and_eq_false_iff, decide_eq_false_iff_not]
   omega
 
